@@ -8,6 +8,11 @@
    source geometry.py:triangle_area sha256/16=51e099ecd5197864
    source geometry.py:quad_area sha256/16=1f8a1e90769b6dbb
    source geometry.py:det_3x3 sha256/16=f8aa99dcd1d69a1e
+   source geometry.py:face_basis sha256/16=52c9cd70ec1fec92
+   source geometry.py:det_2x2 sha256/16=d06b13b741883aae
+   source geometry.py:intersect_2lines2D sha256/16=4c412c8ec13782ef
+   source geometry.py:circumcenter sha256/16=d86db0542638711b
+   source attr_faces.py:face_circumcenter sha256/16=f2c81cc1f5a491a3
    source attr_edges.py:edge_length sha256/16=863395b1d0f3902b
    source attr_edges.py:edge_middle_point sha256/16=a536b81145cefb9e
    source attr_edges.py:cotan_weights sha256/16=0e8369299d9ede52
@@ -75,6 +80,43 @@ Definition g_quad_area {T : Type} (o : ops T) (A : vec T) (B : vec T) (C : vec T
 Definition g_det3 {T : Type} (o : ops T) (A B C : vec T) : T :=
     let d := (osub o (osub o (osub o (oadd o (oadd o (omul o (omul o (vx A) (vy B)) (vz C)) (omul o (omul o (vy A) (vz B)) (vx C))) (omul o (omul o (vz A) (vx B)) (vy C))) (omul o (omul o (vx A) (vz B)) (vy C))) (omul o (omul o (vy A) (vx B)) (vz C))) (omul o (omul o (vz A) (vy B)) (vx C))) in
     d.
+
+Definition g_face_basis {T : Type} (o : ops T) (pA pB pC : vec T) : vec T * vec T * vec T :=
+    let X := (normalized o (vsub o pB pA)) in
+    let Z := (normalized o (g_cross o X (vsub o pC pA))) in
+    let Y := (normalized o (g_cross o Z X)) in
+    (X, Y, Z).
+
+Definition g_det2 {T : Type} (o : ops T) (A B : (T * T)%type) : T :=
+    let ax := (fst A) in
+    let ay := (snd A) in
+    let bx := (fst B) in
+    let by_ := (snd B) in
+    (osub o (omul o ax by_) (omul o ay bx)).
+
+(* None when |det| < 1/1000000000000 (the source's literal), i.e. when NOT eps <= |det| *)
+Definition g_intersect_2lines2D {T : Type} (o : ops T) (p1 d1 p2 d2 : (T * T)%type) : option (T * T) :=
+    if oleb o (odiv o (oZ o 1) (oZ o 1000000000000)) (oabs o (g_det2 o d1 d2)) then Some (
+    let n2 := ((snd d2), (osub o (o0 o) (fst d2))) in
+    let t := (odiv o (dot2 o (wsub o p2 p1) n2) (dot2 o d1 n2)) in
+    (wadd o p1 (wscale o t d1))) else None.
+
+Definition g_circumcenter {T : Type} (o : ops T) (v1 v2 v3 : vec T) : option (vec T) :=
+    let '(X, Y, Z) := g_face_basis o v1 v2 v3 in
+    let h := (dot o Z v1) in
+    let qv1 := (dot o X v1, dot o Y v1) in
+    let qv2 := (dot o X v2, dot o Y v2) in
+    let qv3 := (dot o X v3, dot o Y v3) in
+    let p1 := (wdiv o (wadd o qv1 qv2) (oZ o 2)) in
+    let p2 := (wdiv o (wadd o qv1 qv3) (oZ o 2)) in
+    let d1 := (wsub o qv2 qv1) in
+    let d2 := (wsub o qv3 qv1) in
+    let d1_1 := ((snd d1), (osub o (o0 o) (fst d1))) in
+    let d2_1 := ((snd d2), (osub o (o0 o) (fst d2))) in
+    match g_intersect_2lines2D o p1 d1_1 p2 d2_1 with
+    | Some S_ => Some (vadd o (vadd o (vscale o (fst S_) X) (vscale o (snd S_) Y)) (vscale o h Z))
+    | None => None
+    end.
 
 (* ---- attributes/attr_*.py, glob.py *)
 Definition g_edge_length {T : Type} (o : ops T) (pA pB : vec T) : T :=
